@@ -220,8 +220,62 @@ def run(prog: Program, rep: Report, tier: str):
                                f"the generator is seeded with {show(seed) if seed else 'nothing'}, not with the seed argument",
                                line=c.lineno, clause="C16.5")
     rep.floor("label wrapper constructors analysed", n_ctor, 7)
+    seed_tests(prog, rep, anchor_classes)
+    wrapped_cache(prog, rep, wrappers)
     smoothing(prog, rep)
     names.check(prog, rep, FILES, clause="C16.G1", floor=40)
+
+
+def seed_tests(prog: Program, rep: Report, classes):
+    rep.rule("G7.seed-none-test", "the choice between a seeded generator and the process-global RNG is made by 'seed is None' / "
+             "'seed is not None', never by the truth value of the seed: 0 is a legal seed and must not select the global RNG")
+    n = 0
+    for C in sorted(classes, key=lambda c: c.qualname):
+        for fi in C.methods.values():
+            fa = fa_of(prog, fi)
+            for node, nd in fa.cfg.nodes.items():
+                tests = []
+                if nd.kind == "test" and not isinstance(nd.owner, ast.Assert):
+                    tests.append(nd.ast)
+                for y in fa.cfg.walk_node(node):
+                    if isinstance(y, ast.IfExp):
+                        tests.append(y.test)
+                for te in tests:
+                    t = fa.sym.term(te, node)
+                    core = t[1] if t[0] == "not" else t
+                    if core in (("self", "seed"), ("param", "seed"), ("self", "_seed")):
+                        n += 1
+                        rep.bad("G7.seed-none-test", fi, f"test:{ast.unparse(te)}", f"{fi.qualname} branches on the truth value of "
+                                f"the seed ('{ast.unparse(te)}'): with seed=0 the wrapper silently uses the global RNG and is no "
+                                f"longer a function of its arguments", line=te.lineno, clause="C16.5")
+                    elif core[0] == "is" and any(x in (("self", "seed"), ("param", "seed"), ("self", "_seed")) for x in core[1]):
+                        n += 1
+                        rep.ok("G7.seed-none-test", fi, f"test:{ast.unparse(te)}", "explicit None test", line=te.lineno,
+                               clause="C16.5", nontrivial=False)
+    rep.floor("seed tests in label wrappers", n, 3)
+
+
+def wrapped_cache(prog: Program, rep: Report, wrappers):
+    rep.rule("G8.no-wrapped-cache", "the accessors (getitem_* / getall_*) of a label wrapper do not store values derived from the "
+             "wrapped dataset on the wrapper (no memoisation of wrapped data): the wrapped stack may change its labels later "
+             "(e.g. KDRandomClassWrapper's setters), and a cached copy would make bulk and per-sample access disagree")
+    for C in wrappers:
+        for name, fi in C.methods.items():
+            if not (name.startswith("getitem_") or name.startswith("getall_") or name.startswith("_getitem")):
+                continue
+            fa = fa_of(prog, fi)
+            dep = Deps(fa)
+            for node, var, val in fa.stores(f"{fa.self_name}."):
+                if val is None:
+                    continue
+                d = dep.of(val, node)
+                if ("self", "dataset") in d:
+                    rep.bad("G8.no-wrapped-cache", fi, f"store:{var}", f"{fi.qualname} caches data obtained from the wrapped dataset "
+                            f"in {var}: after the wrapped stack changes its labels, this accessor keeps returning the old ones "
+                            f"while the other accessor returns the new ones", line=fa.line(node), clause="C16.3")
+            if not any(o.rule == "G8.no-wrapped-cache" and o.func == fi.qualname for o in rep.obs):
+                rep.ok("G8.no-wrapped-cache", fi, "stores", "accessor stores nothing derived from the wrapped dataset",
+                       clause="C16.3", nontrivial=False)
 
 
 def borrowed_mutation(prog: Program, rep: Report, fi: FuncInfo):
